@@ -180,6 +180,7 @@ class SigmaRuleBase:
                         "Sigma rule name must be a string", source=source
                     )
                 )
+                rule_name = None  # can't be kept as name (e.g. not hashable)
             else:
                 if rule_name == "":
                     errors.append(
